@@ -621,6 +621,86 @@ func (b *Body) checkStringAccessors(l *Ledger) {
 		} else {
 			l.add("R-DISPATCH", b.Name, key, b.rel(fn.Pos()), Discharged, "every nil-error return is dominated by the ok edge of the comma-ok lookup and by obj != nil", true)
 		}
+		// ... and fails only for a member that is absent, null or not a string: any string is a
+		// legitimate value of the member (whether it is a usable pointer is the operation's business)
+		{
+			key3 := fmt.Sprintf("Operation.%s() fails only for an absent, null or undecodable %q member", spec.method, spec.member)
+			bad3 := ""
+			n3 := 0
+			// reason edges: member absent, member null, decode failed
+			type cfgEdge struct {
+				from *ssa.BasicBlock
+				succ int
+			}
+			reason := map[cfgEdge]bool{}
+			for _, bb := range fn.Blocks {
+				iff, ok := bb.Instrs[len(bb.Instrs)-1].(*ssa.If)
+				if !ok {
+					continue
+				}
+				cv, neg := stripNot(iff.Cond)
+				tEdge, fEdge := 0, 1
+				if neg {
+					tEdge, fEdge = 1, 0
+				}
+				if okv != nil && cv == okv {
+					reason[cfgEdge{bb, fEdge}] = true
+				}
+				if x, nnTrue, ok := nilTestOfCond(iff.Cond); ok {
+					nilSucc := 1
+					if !nnTrue {
+						nilSucc = 0
+					}
+					if x == objv {
+						reason[cfgEdge{bb, nilSucc}] = true
+					}
+					if isErrorType(x.Type()) {
+						var call *ssa.Call
+						switch y := x.(type) {
+						case *ssa.Call:
+							call = y
+						case *ssa.Extract:
+							call, _ = y.Tuple.(*ssa.Call)
+						}
+						if call != nil && b.codecDecodeWrapper(call.Call.StaticCallee(), 0) {
+							reason[cfgEdge{bb, 1 - nilSucc}] = true
+						}
+					}
+				}
+				_ = tEdge
+			}
+			reach := map[*ssa.BasicBlock]bool{}
+			var walk func(bb *ssa.BasicBlock)
+			walk = func(bb *ssa.BasicBlock) {
+				if reach[bb] {
+					return
+				}
+				reach[bb] = true
+				for si, sx := range bb.Succs {
+					if reason[cfgEdge{bb, si}] {
+						continue
+					}
+					walk(sx)
+				}
+			}
+			if len(fn.Blocks) > 0 {
+				walk(fn.Blocks[0])
+			}
+			for _, r := range liveReturns(fn) {
+				if isNilConst(retVal(r, ei)) {
+					continue
+				}
+				n3++
+				if reach[r.Block()] {
+					bad3 = "the error return at " + b.posOf(r) + " can be reached with the member present, non-null and decoded: a patch whose " + spec.member + " is a string is rejected (DecodePatch validates through this accessor)"
+				}
+			}
+			if bad3 != "" {
+				l.add("R-DISPATCH", b.Name, key3, b.rel(fn.Pos()), Violated, bad3, true)
+			} else {
+				l.add("R-DISPATCH", b.Name, key3, b.rel(fn.Pos()), Discharged, fmt.Sprintf("%d error return(s), each under !ok, obj == nil or a failed decode", n3), true)
+			}
+		}
 		key2 := fmt.Sprintf("Operation.%s(): the string returned on success is what the codec's decoder made of the %q member", spec.method, spec.member)
 		bad2 := ""
 		n2 := 0
